@@ -26,7 +26,7 @@ type c19Case struct {
 }
 
 func (c *c19Case) Describe() interface{} {
-	m := map[string]interface{}{"decl": c.Decl.Describe(), "spec": c.App.Root.Spec, "argv": c.Argv, "env": c.Env.Describe(), "bound_tokens": c.Tokens, "policy": policyName(policies[c.Policy]), "stream": c.Stream.String()}
+	m := map[string]interface{}{"decl": c.Decl.Describe(), "spec": c.App.Root.Spec, "argv": shortArgv(c.Argv), "env": c.Env.Describe(), "bound_tokens": shortArgv(c.Tokens), "bound_tokens_len": len(c.Tokens), "policy": policyName(policies[c.Policy]), "stream": c.Stream.String()}
 	if c.Second != nil {
 		m["second_decl"] = c.Second.Describe()
 		m["second_bound_tokens"] = c.Tokens2
@@ -60,7 +60,7 @@ func (c19Prop) Phases(tier string) []PhaseCfg {
 func (c19Prop) Gen(t *Tape, ph *PhaseCfg) Case {
 	if ph != nil && ph.P["pair"] == 1 {
 		g := genPair(t, func() Case {
-			c := c19Prop{}.genOne(t)
+			c := c19Prop{}.genOneOpt(t, false)
 			c.Decl.Probe.YieldInSet = true
 			return c
 		})
@@ -70,13 +70,19 @@ func (c19Prop) Gen(t *Tape, ph *PhaseCfg) Case {
 	return c19Prop{}.genOne(t)
 }
 
-func (c19Prop) genOne(t *Tape) *c19Case {
+func (c19Prop) genOne(t *Tape) *c19Case { return c19Prop{}.genOneOpt(t, true) }
+
+// genOneOpt: with allowLong a case may, rarely, repeat the value thousands of times (a long command line).
+func (c19Prop) genOneOpt(t *Tape, allowLong bool) *c19Case {
 	methods := t.Draw(8)
 	boolFalse := t.Draw(2) == 1
 	isArg := t.Draw(2) == 1
 	shapeSel := t.Draw(4)
 	n := t.Draw(4)
 	failSel := t.Draw(4)
+	if allowLong && t.Draw(600) == 0 && shapeSel != 0 && !(isArg && shapeSel == 1) {
+		n = []int{1030, 2100, 4200}[t.Draw(3)]
+	}
 
 	ps := &ProbeSpec{HasBool: methods&1 != 0, HasClear: methods&2 != 0, HasDefault: methods&4 != 0}
 	ps.BoolResult = ps.HasBool && !boolFalse
@@ -312,6 +318,7 @@ func (c19Prop) Exec(cc Case, st *Stats) *Violation {
 
 func c19Prepare(c *c19Case, id int) *Prepared {
 	p := NewProc(id)
+	p.SetInputSize(len(c.Argv))
 	p.Stream = c.Stream
 	var inst *Instance
 	body := func() error {
@@ -337,6 +344,7 @@ func c19Rerun(c *c19Case, inst *Instance, st *Stats) *Violation {
 	key := "r/" + c.Decl.Key()
 	before := len(inst.ProbeLog(key))
 	p2 := NewProc(20)
+	p2.SetInputSize(len(c.Argv))
 	p2.Stream = c.Stream
 	inst.Proc = p2
 	RunProc(p2, func() error { return inst.Cli.Run(c.Argv) })
@@ -367,6 +375,9 @@ func c19Verdict(c *c19Case, p *Proc, inst *Instance, st *Stats) *Violation {
 	}
 	if ps.HasBool && !ps.BoolResult {
 		st.Count("reach.isboolflag_false")
+	}
+	if len(c.Tokens) > 1000 {
+		st.Count("reach.long_command_line_1000s_of_tokens")
 	}
 	if len(c.Tokens) > 0 || len(c.Decl.EnvVars) > 0 {
 		st.Nontrivial(fnv64(fmt.Sprintf("%+v %v %s %q %v %q", *ps, c.Decl.IsArg, c.Shape, c.Tokens, c.Env.Describe(), c.Tokens2)))
